@@ -268,6 +268,22 @@ pub proof fn lemma_vv_map_insert(m: Map<String, Value>, k: String, v: Value)
     assert(vv_map(m.insert(k, v)) =~= vv_map(m).insert(k, vv(v)));
 }
 
+pub mod bc_vvmap {
+use super::*;
+/// broadcast forms (opt-in per function): the ghost image of a cache commutes with insert / domain / lookup, so that proofs
+/// about code that updates the cache need no hint anchored to a particular statement
+pub broadcast proof fn lemma_vv_map_insert_auto(m: Map<String, Value>, k: String, v: Value)
+    ensures #[trigger] vv_map(m.insert(k, v)) == vv_map(m).insert(k, vv(v)),
+{
+    assert(vv_map(m.insert(k, v)) =~= vv_map(m).insert(k, vv(v)));
+}
+pub broadcast proof fn lemma_vv_map_dom_auto(m: Map<String, Value>, k: String)
+    ensures (#[trigger] vv_map(m).dom().contains(k)) == m.dom().contains(k),
+            m.dom().contains(k) ==> (#[trigger] vv_map(m)[k]) == vv(m[k]),
+{}
+}
+pub use bc_vvmap::*;
+
 // ---- state of a real evaluation context ---------------------------------------------------------------
 pub open spec fn mk_st(cache: Map<String, Value>, log: Log) -> St { St { cache: vv_map(cache), log: log.calls } }
 
